@@ -298,6 +298,10 @@ def transpose_rule(chk, db):
         chk.unknown_instance("TRANSP", construct, unknown)
 
 
+META_EXTRA = "DYNSLOT (dynamic-extent slots selected by the type's own pattern; bulk copies only for rank_dynamic() values); TRANSP (transposed stride table)."
+META = (META[0] + " " + META_EXTRA, META[1])
+
+
 def run(chk, tier):
     db = D.load("checks")
     plain = D.load("plain")
